@@ -7,7 +7,7 @@ C09 — XorEncoded file view
 
 The model follows the code as it is in /repo now (after fix 5b1e7f7: `read` returns early for
 `n == 0`, treats `None`/negative `n` as "read everything" and seeks back over the surplus of the
-last 4-byte chunk).  Raw layout of an encoded stage:  stub ++ nonce(4) ++ size(4) ++ enc.
+last 4-byte chunk; after fix f64b15d: `read_nonce` restores the cursor with `self.fh.seek(pos)`).  Raw layout of an encoded stage:  stub ++ nonce(4) ++ size(4) ++ enc.
 -/
 namespace C09
 
@@ -34,21 +34,37 @@ def XorFile.base (x : XorFile) : Nat := x.nonceOff + 8
 
 /-- `read_nonce()`: the four bytes before the current raw position; below logical position 4 the
 encoded-size dword is skipped by splicing in the tail of the initial nonce.
-`except OSError` catches the failed relative seek of an OS file (BytesIO clamps to 0 instead). -/
+`except OSError` catches the failed relative seek of an OS file (BytesIO clamps to 0 instead);
+`rawNonce` is the `try` block. -/
+def rawNonce (x : XorFile) : Py (Bytes × PyFile) :=
+  match x.fh.seekCur (-4) with                            -- self.fh.seek(-4, io.SEEK_CUR)
+  | .ok (_, f1) => .ok (f1.read 4)                        -- nonce = self.fh.read(4)
+  | .error e => if e = .osError then .ok ([0, 0, 0, 0], x.fh) else .error e   -- except OSError
+
+/-- the splice of `read_nonce` below logical position 4 -/
+def spliceNonce (x : XorFile) (pos : Nat) (nonce : Bytes) : Bytes :=
+  if pos < x.nonceOff + 12 then
+    let offset : Int := (pos : Int) - ((x.nonceOff : Int) + 8)
+    -- nonce = self.initial_nonce[offset:] + nonce[4 - offset:]
+    pySliceFrom x.initialNonce offset ++ pySliceFrom nonce (4 - offset)
+  else nonce
+
 def readNonce (x : XorFile) : Py (Bytes × XorFile) :=
   let pos := x.fh.tell                                    -- pos = self.fh.tell()
-  let r : Py (Bytes × PyFile) :=
-    match x.fh.seekCur (-4) with                          -- self.fh.seek(-4, io.SEEK_CUR)
-    | .ok (_, f1) => .ok (f1.read 4)                      -- nonce = self.fh.read(4)
-    | .error e => if e = .osError then .ok ([0, 0, 0, 0], x.fh) else .error e
-  match r with
+  match rawNonce x with
   | .error e => .error e
   | .ok (nonce, f2) =>
-    if pos < x.nonceOff + 12 then
-      let offset : Int := (pos : Int) - ((x.nonceOff : Int) + 8)
-      -- nonce = self.initial_nonce[offset:] + nonce[4 - offset:]
-      .ok (pySliceFrom x.initialNonce offset ++ pySliceFrom nonce (4 - offset), { x with fh := f2 })
-    else .ok (nonce, { x with fh := f2 })
+    match f2.seekSet pos with                             -- self.fh.seek(pos)   (fix f64b15d)
+    | .error e => .error e
+    | .ok (_, f3) => .ok (spliceNonce x pos nonce, { x with fh := f3 })
+
+/-- `read_nonce` as it was before fix f64b15d (no `self.fh.seek(pos)`): kept only to show that the
+refinement theorem distinguishes the two (`Props/C09.lean`, `history_refines_refutes_old`). -/
+def readNonceOld (x : XorFile) : Py (Bytes × XorFile) :=
+  let pos := x.fh.tell
+  match rawNonce x with
+  | .error e => .error e
+  | .ok (nonce, f2) => .ok (spliceNonce x pos nonce, { x with fh := f2 })
 
 /-- `tell()` -/
 def tell (x : XorFile) : Int := (x.fh.tell : Int) - ((x.nonceOff : Int) + 8)
@@ -85,14 +101,14 @@ def readLoop (n : Int) (f : PyFile) (nonce : Bytes) (got : Nat) : Bytes × PyFil
 termination_by f.data.length - f.pos
 decreasing_by exact readLoop_progress f (by assumption)
 
-/-- `read(n)`; `none` = Python `None`. -/
-def read (x : XorFile) (n : Option Int) : Py (Bytes × XorFile) :=
+/-- `read(n)` with the nonce lookup as a parameter; `none` = Python `None`. -/
+def readWith (rn : XorFile → Py (Bytes × XorFile)) (x : XorFile) (n : Option Int) : Py (Bytes × XorFile) :=
   let n : Int := match n with                             -- if n is None or n < 0: n = -1
     | none => -1
     | some v => if v < 0 then -1 else v
   if n = 0 then .ok ([], x)                               -- if n == 0: return b""
   else
-    match readNonce x with
+    match rn x with                                       -- nonce = self.read_nonce()
     | .error e => .error e
     | .ok (nonce, x1) =>
       let r := readLoop n x1.fh nonce 0
@@ -102,6 +118,9 @@ def read (x : XorFile) (n : Option Int) : Py (Bytes × XorFile) :=
         | .error e => .error e
         | .ok (_, f3) => .ok (r.1.take n.toNat, { x1 with fh := f3 })
       else .ok (r.1.take n.toNat, { x1 with fh := r.2 })  -- return data[:n]
+
+/-- `XorEncodedFile.read(n)` -/
+def read (x : XorFile) (n : Option Int) : Py (Bytes × XorFile) := readWith readNonce x n
 
 /-! ### Operation histories -/
 
@@ -184,9 +203,8 @@ def posAfterRead (len p : Nat) (n : Option Int) : Nat :=
   | some v => if v < 0 then max p len else max p (min (p + v.toNat) len)
 
 /-- Decidable hypothesis of the refinement theorem: every seek of the history lands at a logical
-position `0 ≤ t ≤ len` (with `lo = 0`).  `hi = none` drops the upper bound (used to state the
-full-strength variant, which is false: see `Props/C09.lean`). -/
-def seeksWithin (len : Nat) (hi : Option Nat) : Nat → List Op → Bool
+position `≥ 0` (possibly beyond the end); `p` is the logical position before the history. -/
+def seeksNonneg (len : Nat) : Nat → List Op → Bool
   | _, [] => true
   | p, .seek off wh :: ops =>
     let t : Option Int :=
@@ -197,17 +215,9 @@ def seeksWithin (len : Nat) (hi : Option Nat) : Nat → List Op → Bool
       | _ => none
     match t with
     | none => false
-    | some t =>
-      decide (0 ≤ t) && (match hi with | none => true | some h => decide (t ≤ (h : Int)))
-        && seeksWithin len hi t.toNat ops
-  | p, .read n :: ops => seeksWithin len hi (posAfterRead len p n) ops
-  | p, .tell :: ops => seeksWithin len hi p ops
-
-/-- every seek lands in `[0, len]` -/
-def seeksInRange (len p : Nat) (ops : List Op) : Bool := seeksWithin len (some len) p ops
-
-/-- every seek lands at a position `≥ 0` (no upper bound) -/
-def seeksNonneg (len p : Nat) (ops : List Op) : Bool := seeksWithin len none p ops
+    | some t => decide (0 ≤ t) && seeksNonneg len t.toNat ops
+  | p, .read n :: ops => seeksNonneg len (posAfterRead len p n) ops
+  | p, .tell :: ops => seeksNonneg len p ops
 
 /-! ### Detection -/
 
